@@ -81,6 +81,10 @@ def solve(device, p=0, s0=None, solver_options={}, prox=None, cb=None):
       'fun': lambda s, p=p: device.cost(s, p) + (1/(2*prox))*((s-s0)**2).sum(),
       'jac': lambda s, p=p: device.deriv(s, p).flatten() + (1/prox)*(s-s0),
     })
+  # SLSQP rejects such problems (status 2) but can corrupt memory first when inequalities are present too.
+  meq = sum(1 for c in args['constraints'] if c['type'] == 'eq')
+  if meq > len(s0):
+    raise OptimizationException('More equality constraints (%d) than independent variables (%d)' % (meq, len(s0)))
   o = minimize(**args)
   if not o.success:
     raise OptimizationException(o)
